@@ -141,7 +141,7 @@ def mk_case(cred, token=None, claim_v=2, vtt=None, name="", vtrust=None):
     if token is not None:
         t = m["tsas"][token["tsa_kind"]]
         tok = {"mode": "craft", "msg": "right", "corrupt": "none", "attrs": True, "hash": "sha256", "embed": "all", "signing_time_attr": None,
-               "accuracy": None, "gen_time": "20240601120000Z", "wrong_key": False}
+               "accuracy": None, "gen_time": "20240601120000Z", "wrong_key": False, "hash_label": None, "signer_digest": "sha256"}
         tok.update(token)
         tok.update({"tsa": {"cert": t["cert"], "chain": t["chain"], "key": t["key"]}, "tsa_der": t["der"], "tsa_chain_der": t["chain_der"],
                     "sid_issuer": t["sid_issuer"], "sid_serial": t["sid_serial"], "tsa_key_kind": t["key_kind"],
@@ -183,7 +183,13 @@ def structured():
     for kw in ({"tsa_kind": "ok", "corrupt": "imprint"}, {"tsa_kind": "ok", "corrupt": "tstinfo"}, {"tsa_kind": "ok", "wrong_key": True},
                {"tsa_kind": "ok", "attrs": False}, {"tsa_kind": "ok", "attrs": False, "corrupt": "tstinfo"}, {"tsa_kind": "ok", "attrs": False, "msg": "other"},
                {"tsa_kind": "ok", "embed": "leaf"}, {"tsa_kind": "ok", "embed": "chain_only"}, {"tsa_kind": "ok", "embed": "none"},
-               {"tsa_kind": "ok", "hash": "sha384"}, {"tsa_kind": "ok", "hash": "sha512"}, {"tsa_kind": "ec"}, {"tsa_kind": "ec", "corrupt": "sig"},
+               {"tsa_kind": "ok", "hash": "sha384"}, {"tsa_kind": "ok", "hash": "sha512"}, {"tsa_kind": "ec"},
+               # messageImprint algorithm vs SignerInfo digest algorithm: right imprint under another signer digest; an imprint
+               # whose *label* is not the algorithm its value was computed with (unsupported label, supported label)
+               {"tsa_kind": "ok", "hash": "sha256", "signer_digest": "sha384"}, {"tsa_kind": "ok", "hash": "sha512", "signer_digest": "sha384"},
+               {"tsa_kind": "ok", "hash": "sha256", "hash_label": "sha3-256"}, {"tsa_kind": "ok", "hash": "sha256", "hash_label": "sha384"},
+               {"tsa_kind": "ok", "hash": "sha384", "hash_label": "sha256"}, {"tsa_kind": "ok", "hash": "sha384", "hash_label": "sha256", "signer_digest": "sha384"},
+               {"tsa_kind": "ok", "hash": "sha256", "hash_label": "sha3-256", "attrs": False}, {"tsa_kind": "ec", "corrupt": "sig"},
                {"tsa_kind": "untrusted"}, {"tsa_kind": "badeku"}, {"tsa_kind": "self"}, {"tsa_kind": "self", "msg": "other"},
                {"tsa_kind": "old"}, {"tsa_kind": "old", "gen_time": "20250715120000Z"}, {"tsa_kind": "old", "gen_time": "20221231235959Z"},
                {"tsa_kind": "old", "gen_time": "20250601000001Z", "accuracy": 1}, {"tsa_kind": "old", "gen_time": "20250601000001Z", "accuracy": 100000000},
@@ -228,6 +234,10 @@ def gen_case(rng):
            "corrupt": rng.choice(["none", "none", "none", "none", "sig", "imprint", "tstinfo"]), "attrs": rng.random() < 0.75,
            "hash": rng.choice(["sha256", "sha256", "sha384", "sha512"]), "embed": rng.choice(["all", "all", "all", "leaf", "chain_only", "none"]),
            "accuracy": rng.choice([None, None, 1, 86400, 100000000]), "wrong_key": rng.random() < 0.08}
+    if rng.random() < 0.15:
+        tok["hash_label"] = rng.choice(["sha256", "sha384", "sha512", "sha3-256"])
+    if tsa in ("ok", "old", "future", "untrusted", "badeku") and rng.random() < 0.15:      # RSA keys only
+        tok["signer_digest"] = rng.choice(["sha384", "sha512"])
     if tok["attrs"] and rng.random() < 0.3:
         tok["signing_time_attr"] = P.utc(P.ep(rng.choice([tok["gen_time"]] + GEN_TIMES)))
     return mk_case(cred, tok, claim_v=rng.choice([2, 2, 2, 1]), vtt=rng.choice([None, None, None, False]), name="rnd-craft",
@@ -244,7 +254,8 @@ def truth(c, now):
         return g
     openssl = t["mode"] == "openssl"
     g["parses"] = t["corrupt"] != "truncate"
-    g["imprint_ok"] = t["msg"] == "right" and not (t["corrupt"] == "imprint" or (openssl and t["corrupt"] == "tstinfo"))
+    label_ok = openssl or t.get("hash_label") in (None, t["hash"])      # the imprint names the algorithm its value was computed with
+    g["imprint_ok"] = t["msg"] == "right" and label_ok and not (t["corrupt"] == "imprint" or (openssl and t["corrupt"] == "tstinfo"))
     g["signer_cert_embedded"] = openssl or t["embed"] in ("all", "leaf")
     g["cms_ok"] = (g["parses"] and t["corrupt"] not in ("sig", "tstinfo", "imprint" if openssl else "-") and not t.get("wrong_key")
                    and g["signer_cert_embedded"])
@@ -309,9 +320,13 @@ def model_expr(c, now):
         msg = f"(toy_countersign ({CD if v1 else 'toy_bstr ' + SIG}) {PH})"
         openssl = t["mode"] == "openssl"
         h = HASH["sha256" if openssl else t["hash"]]
-        imprint = f"(toyH {h} {msg})" if g["imprint_ok"] else f"(toyH {h} ({msg} ++ [90]%N))"
+        label = None if openssl else t.get("hash_label")
+        sd = HASH["sha256" if openssl else t.get("signer_digest", "sha256")]
+        bound_msg = t["msg"] == "right" and not (t["corrupt"] == "imprint" or (openssl and t["corrupt"] == "tstinfo"))
+        imprint = f"(toyH {h} {msg})" if bound_msg else f"(toyH {h} ({msg} ++ [90]%N))"
+        label_term = f"Some {h}" if label is None else ("None" if label not in HASH else f"Some {HASH[label]}")
         acc = "Some (1, 0, 0)" if openssl else ("None" if t["accuracy"] is None else f"Some ({t['accuracy']}, 0, 0)")
-        tst = f"{{| ti_imprint_alg := Some {h}; ti_imprint := {imprint}; ti_gen_time := {g['gen']}; ti_accuracy := {acc} |}}"
+        tst = f"{{| ti_imprint_alg := {label_term}; ti_imprint := {imprint}; ti_gen_time := {g['gen']}; ti_accuracy := {acc} |}}"
         key = KEY_ID[t["tsa_kind"]]
         cert = (f"{{| tc_key := {key}%N; tc_not_before := {t['tsa_nb']}; tc_not_after := {t['tsa_na']}; tc_v3 := true; tc_is_ca := false; "
                 f"tc_eku := Some ({coq_eku(t['tsa_eku_ts'])}); tc_x509_ok := true |}}")
@@ -323,13 +338,13 @@ def model_expr(c, now):
             enc = "[77; 1]%N"
             st_attr = g["gen"] if openssl else g["attr"]
             attrs = (f"Some {{| sa_signing_time := {('Some (%d)' % st_attr) if st_attr is not None else 'None'}; "
-                     f"sa_digest := DaValue (toyH Sha256 [42]%N); sa_encoding := Some {enc} |}}")
+                     f"sa_digest := DaValue (toyH {sd} [42]%N); sa_encoding := Some {enc} |}}")
             signed = enc
         else:
             attrs, signed = "None", "[42]%N"
         sig = f"(({sign_key} :: {signed})%N)" if t["corrupt"] != "sig" else f"(({sign_key} :: 0 :: {signed})%N)"
         embedded = g["signer_cert_embedded"]
-        signer = (f"{{| si_cert := {('Some (' + cert + ')') if embedded else 'None'}; si_digest := DoAlg Sha256; si_attrs := {attrs}; "
+        signer = (f"{{| si_cert := {('Some (' + cert + ')') if embedded else 'None'}; si_digest := DoAlg {sd}; si_attrs := {attrs}; "
                   f"si_key_ok := true; si_signature := {sig} |}}")
         certs = "None" if (not openssl and t["embed"] == "none") else "Some true"
         tk = (f"{{| tk_signed_data := {b(g['parses'])}; tk_certs := {certs}; tk_tst := Some ({tst}); tk_content := Some {content}; "
